@@ -1,254 +1,466 @@
-"""C13 — cross-check of the translated programs against one traced run of the real classes.
+"""C13 — MEASURED extraction of the store programs (next to the syntactic interpreter).
 
-The translator (harness/translators/c13_store.py) is a symbolic interpreter: it follows helper
-calls, tuples, early returns ...  To guard that liberal interpreter against mis-translation, every
-translated PUBLIC method (and the constructor of every store class) is run once per variant on
-the real class in a subprocess (PYTHONPATH=$YV_REPO), over a tracing connection on a fresh
-in-memory database, with sentinel arguments, in two variants:
-  absent   nothing stored under the addressed key
-  present  every table holds a row whose key (and every other column) is the value the sentinels
-           are bound as
-and the observed sequence of (write statement verb, table) / COMMIT is compared with what the
-translated program does on the same little database (`simulate`, a direct transcription of the
-statement semantics of coq/C13/C13Model.v: DELETE by key + filters, INSERT raises on an existing
-key unless OR REPLACE, UPDATE, the run stops at the raising statement).  SELECTs and DDL are not
-part of the programs and are ignored.  A disagreement = the tie is broken.
+`measure(repo, scratch)` runs, in a subprocess with PYTHONPATH = the tree under test, the real
+store classes over a tracing connection and returns everything a `prog` of coq/C13 needs:
 
-Parent side: `run(meta, repo, scratch)` -> report dict.  Child side: `python -m
-harness.c13_tracecheck <job.json>` prints the observations as JSON.
+* connection: the facade `LiteAxolotlStore(path)` is constructed with `sqlite3` in its module's
+  namespace replaced by a shim; recorded: number of connects, connect keywords, `text_factory`,
+  `isolation_level` / `autocommit` of the connection the stores were given;
+* schema: read back from SQLite itself (PRAGMA table_info / index_list / index_info);
+* facade: every public facade method is called with sentinel arguments while every public method
+  of every sub-store instance is replaced by a recorder: which sub-store method is reached, with
+  which of the sentinels in which order (decorator-generated delegations included);
+* every public method of every store class (defined in the package; inherited package mixins
+  included) is run on a fresh in-memory database in the state variants
+      A  nothing stored            P  a row under the addressed key in every table (all columns =
+      C  same key, other columns different (UNIQUE conflict for INSERT paths that first DELETE with
+         a filter)                     what the sentinels are bound as)
+  and, for a list parameter (found by probing: the call fails with TypeError on a scalar
+  sentinel), with 0, 1 and 3 elements in variants A and P;
+* every constructor: on a fresh database, again on the same connection, again after all rows were
+  removed, and on a second fresh database (generated values differ, constants do not); for the
+  class that initialises, the registration id / identity key pair are read back through
+  getLocalRegistrationId / getIdentityKeyPair so that bound values can be recognised as
+  accessor chains of the generated values.
+
+Tracing = a `sqlite3.Connection` subclass (cursor factory recording `execute(sql, params)` with the
+IDENTITY of every bound parameter: sentinel objects are tagged with parameter name, accessor chain
+and loop index, and are bound as small ints only at the last moment) PLUS
+`Connection.set_trace_callback`, which reports BEGIN / COMMIT / ROLLBACK and every statement SQLite
+really runs, including commits issued from C (`with conn:`), `executescript`, statements run on
+cursors the wrapper did not create (reported as UNATTRIBUTED).  Sentinels converted to text / bytes
+carry a tag, so a parameter or SQL text *derived* from an argument by a conversion is recognised
+(and refused) rather than mistaken for a constant.
+
+The parent side only transports the observation; turning it into programs and comparing it with the
+syntactic result is harness/translators/c13_store.py (`build_measured`, `compare_models`).
 """
-import json, os, re, subprocess, sys
+import json, os, subprocess, sys
 
-SENT, SENT2 = 7, 8          # what sentinel arguments are bound as (second loop element: SENT2)
-WRITE = ("INSERT", "UPDATE", "DELETE", "REPLACE")
-
-
-# ---------------------------------------------------------------- expected (parent side)
-def _cell_value(c):
-    """canonical cell (bytes or its hex form in the JSON side file) -> comparable python value"""
-    if isinstance(c, str):
-        c = bytes.fromhex(c)
-    if c == b"n":
-        return None
-    if c[:1] == b"i":
-        return int(c[1:])
-    return bytes(c[1:])
+PKG = "yowsup.axolotl.store.sqlite"
+TAGMARK = "<<C13:"
+SENT, ALT = 7, 8            # what scalar sentinels are bound as / the "other" value of variant C
+DML = ("INSERT", "UPDATE", "DELETE", "REPLACE")
 
 
-def _v(ref, loopv):
-    ref = list(ref)
-    if ref[0] == "arg":
-        return SENT
-    if ref[0] == "loop":
-        return loopv
-    return _cell_value(ref[1])
+class MeasureError(Exception):
+    pass
 
 
-def simulate(prog, tables, present):
-    """-> (trace, raised): what the translated program does on the sentinel database"""
-    tabs = {t["id"]: t for t in tables}
-    rows = {t["id"]: ({tuple([SENT] * len(t["key"])): {i: SENT for i in range(len(t["nonkey"]))}} if present else {})
-            for t in tables}
-    trace = []
-
-    def one(s, loopv):
-        s = list(s)
-        if s[0] == "insert":
-            _, orrep, tid, key, assign = s
-            trace.append(["INSERT", tabs[tid]["name"]])
-            k = tuple(_v(x, loopv) for x in key)
-            if k in rows[tid] and not orrep:
-                return False
-            rows[tid][k] = {ci: _v(x, loopv) for ci, x in assign}
-            return True
-        _, tid, key, rest = s
-        k = tuple(_v(x, loopv) for x in key)
-        if s[0] == "delete":
-            trace.append(["DELETE", tabs[tid]["name"]])
-            r = rows[tid].get(k)
-            if r is not None and all(r.get(ci) == _v(x, loopv) for ci, x in rest):
-                del rows[tid][k]
-        else:
-            trace.append(["UPDATE", tabs[tid]["name"]])
-            if k in rows[tid]:
-                rows[tid][k].update({ci: _v(x, loopv) for ci, x in rest})
-        return True
-
-    for item in prog:
-        item = list(item)
-        if item[0] == "commit":
-            trace.append(["COMMIT"])
-        elif item[0] == "s":
-            if not one(item[1], None):
-                return trace, True
-        else:
-            for lv in (SENT, SENT2):
-                if not one(item[1], lv):
-                    return trace, True
-    return trace, False
-
-
-def run(meta, repo, scratch, python=sys.executable, timeout=120):
-    """-> {"runs", "agree", "inconclusive", "disagreements": [...], "error": None|str}"""
-    meta = json.loads(json.dumps(meta, default=lambda b: b.hex() if isinstance(b, bytes) else str(b)))
-    job = os.path.join(scratch, "c13-tracecheck-job.json")
-    with open(job, "w") as f:
-        json.dump(meta, f)
+def measure(repo, scratch, python=sys.executable, timeout=180):
+    """-> observation dict (see module docstring); MeasureError if the tracer could not run"""
     here = os.path.dirname(os.path.dirname(os.path.abspath(__file__)))
+    job = os.path.join(scratch, "c13-measure-job.json")
+    with open(job, "w") as f:
+        json.dump({"scratch": scratch}, f)
     env = dict(os.environ)
     env["YV_REPO"] = repo
     env["PYTHONPATH"] = repo + os.pathsep + here
     env["PYTHONDONTWRITEBYTECODE"] = "1"
-    rep = {"runs": 0, "agree": 0, "inconclusive": 0, "disagreements": [], "error": None}
     try:
         p = subprocess.run([python, "-m", "harness.c13_tracecheck", job], cwd=here, env=env,
                            capture_output=True, text=True, timeout=timeout)
-        if p.returncode != 0:
-            rep["error"] = "tracer exited %d: %s" % (p.returncode, p.stderr.strip()[-400:])
-            return rep
-        obs = json.loads(p.stdout)
     except Exception as e:
-        rep["error"] = "tracer: %r" % (e,)
-        return rep
-    progs = {(m["class"], m["name"]): m["prog"] for m in meta["methods"]}
-    for o in obs:
-        rep["runs"] += 1
-        got = o["trace"]
-        if o["kind"] == "init":
-            want, raised = (simulate(meta["init"]["prog"], meta["tables"], False)
-                            if (o["class"] == meta["init"]["class"] and o["variant"] == "fresh") else ([], False))
-        else:
-            want, raised = simulate(progs[(o["class"], o["name"])], meta["tables"], o["variant"] == "present")
-        if got == want and ((o["exc"] == "IntegrityError") == raised):
-            rep["agree"] += 1
-        elif not raised and o["exc"] not in (None, "IntegrityError") and got != want and got == want[:len(got)]:
-            # the sentinel made the real code raise something unrelated before the end: nothing learnt
-            rep["inconclusive"] += 1
-        else:
-            rep["disagreements"].append({"class": o["class"], "method": o.get("name", "__init__"),
-                                         "variant": o["variant"], "observed": got, "observed_exception": o["exc"],
-                                         "translated": want, "translated_raises": raised})
-    return rep
+        raise MeasureError("tracer: %r" % (e,))
+    if p.returncode != 0:
+        raise MeasureError("tracer exited %d: %s" % (p.returncode, p.stderr.strip()[-400:]))
+    try:
+        obs = json.loads(p.stdout[p.stdout.index("{"):])
+    except Exception as e:
+        raise MeasureError("tracer output not understood: %r" % (e,))
+    if obs.get("fatal"):
+        raise MeasureError(obs["fatal"])
+    return obs
 
 
-# ---------------------------------------------------------------- observed (child side)
+# ---------------------------------------------------------------- child side
 def _child(jobfile):
-    import sqlite3, importlib
+    import sqlite3, importlib, inspect, traceback
     from . import env
-    env.setup()
-    meta = json.load(open(jobfile))
+    job = json.load(open(jobfile))
+    env.setup(job["scratch"])
+    out = {"fatal": None}
 
-    class S(object):
-        """sentinel argument: every attribute is a method returning another sentinel"""
+    class Sent(object):
+        """sentinel argument: `x.getA().getB()` is the sentinel (root, ("getA", "getB"))"""
+        __slots__ = ("_r", "_c", "_e", "_b")
 
-        def __init__(self, v=SENT):
-            self.__dict__["_v"] = v
+        def __init__(self, root, chain=(), elem=None, bad=None):
+            self._r, self._c, self._e, self._b = root, tuple(chain), elem, bad
 
         def __getattr__(self, name):
-            if name.startswith("__"):
+            if name.startswith("__") and name.endswith("__"):
                 raise AttributeError(name)
-            v = self._v
-            return lambda *a, **k: S(v)
+            r, c, e, b = self._r, self._c, self._e, self._b
+
+            def accessor(*a, **k):
+                return Sent(r, c + (name,), e,
+                            b or ("accessor %s() called with arguments" % name if (a or k) else None))
+            return accessor
+
+        def _label(self):
+            return "%s%s%s" % (self._r, "" if self._e is None else "[%d]" % self._e,
+                               "".join(".%s()" % x for x in self._c))
 
         def __repr__(self):
-            return "<sentinel %d>" % self._v
+            return TAGMARK + self._label() + ">>"
+        __str__ = __repr__
+
+        def __bytes__(self):
+            return repr(self).encode()
+
+    def desc(p):
+        if isinstance(p, Sent):
+            if p._b:
+                return ["bad", p._b]
+            if p._e is not None:
+                return ["bad", "accessor on a list element"] if p._c else ["loop", p._r, p._e]
+            return ["arg", p._r, list(p._c)]
+        if p is None or isinstance(p, (bool, int)):
+            return ["const", None if p is None else int(p)]
+        if isinstance(p, (bytes, bytearray, memoryview)):
+            b = bytes(p)
+            return ["bad", "argument converted to bytes"] if TAGMARK.encode() in b else ["const", {"b": b.hex()}]
+        if isinstance(p, str):
+            return ["bad", "argument converted to text"] if TAGMARK in p else ["const", {"s": p}]
+        return ["bad", "value of type %s" % type(p).__name__]
 
     def conv(params):
         if isinstance(params, (tuple, list)):
-            return tuple(p._v if isinstance(p, S) else p for p in params)
+            return tuple((SENT if p._e is None else SENT + p._e) if isinstance(p, Sent) else p for p in params)
         return params
-
-    def classify(sql):
-        s = sql.lstrip()
-        verb = s.split(None, 1)[0].upper() if s else ""
-        if verb not in WRITE:
-            return None
-        m = re.match(r"(?is)(?:INSERT(?:\s+OR\s+\w+)?\s+INTO|REPLACE\s+INTO|DELETE\s+FROM|UPDATE)\s+(\w+)", s)
-        return ["INSERT" if verb == "REPLACE" else verb, m.group(1) if m else "?"]
 
     class TCursor(sqlite3.Cursor):
         def execute(self, sql, params=()):
-            c = classify(sql)
-            if c:
-                self.connection._log.append(c)
-            return super().execute(sql, conv(params))
+            conn = self.connection
+            if conn._mute:
+                return super().execute(sql, params)
+            if not isinstance(sql, str) or TAGMARK in sql:
+                conn._log.append(["BADSQL", "SQL text computed from an argument"])
+            if isinstance(sql, str) and (sql.lstrip().split(None, 1) or [""])[0].upper().rstrip(";") in (
+                    "BEGIN", "COMMIT", "END", "ROLLBACK"):
+                return super().execute(sql, params)        # transaction control as SQL text: the statement trace reports it
+            ds = [desc(p) for p in params] if isinstance(params, (tuple, list)) else [["bad", "parameters are not a sequence"]]
+            entry = ["S", sql if isinstance(sql, str) else repr(sql), ds, None]
+            conn._pending, conn._pending_logged = entry, False
+            try:
+                return super().execute(sql, conv(params))
+            except Exception as e:
+                entry[3] = type(e).__name__
+                raise
+            finally:
+                if not conn._pending_logged:
+                    conn._log.append(entry)
+                conn._pending = None
 
         def executemany(self, sql, seq):
-            self.connection._log.append(["EXECUTEMANY", "?"])
+            self.connection._log.append(["OTHER", "executemany"])
             return super().executemany(sql, [conv(p) for p in seq])
 
         def executescript(self, script):
-            self.connection._log.append(["EXECUTESCRIPT", "?"])
+            self.connection._log.append(["OTHER", "executescript"])
             return super().executescript(script)
 
     class TConn(sqlite3.Connection):
         def cursor(self, factory=TCursor):
             return super().cursor(factory)
 
-        def commit(self):
-            self._log.append(["COMMIT"])
-            return super().commit()
+        # Connection.execute* create their cursor and run the statement in C: route them through the recording cursor
+        def execute(self, sql, params=()):
+            return self.cursor().execute(sql, params)
 
-        def rollback(self):
-            self._log.append(["ROLLBACK"])
-            return super().rollback()
+        def executemany(self, sql, seq):
+            return self.cursor().executemany(sql, seq)
 
-    def connect():
-        c = sqlite3.connect(":memory:", factory=TConn)
-        c._log = []
+        def executescript(self, script):
+            return self.cursor().executescript(script)
+
+    def on_sql(conn, text):
+        if conn._mute:
+            return
+        up = text.lstrip().upper()
+        if up.startswith("BEGIN"):
+            conn._log.append(["BEGIN"])
+        elif up.startswith("COMMIT") or up.startswith("END"):
+            conn._log.append(["COMMIT"])
+        elif up.startswith("ROLLBACK"):
+            conn._log.append(["ROLLBACK"])
+        elif up.startswith("SAVEPOINT") or up.startswith("RELEASE"):
+            conn._log.append(["OTHER", up.split()[0].lower()])
+        elif conn._pending is not None and not conn._pending_logged:
+            conn._log.append(conn._pending)
+            conn._pending_logged = True
+        elif up.split(None, 1)[0:1] and up.split(None, 1)[0] in DML:
+            conn._log.append(["UNATTRIBUTED", text[:200]])
+
+    def connect(path=":memory:", **kw):
+        kw.pop("factory", None)
+        c = sqlite3.connect(path, factory=TConn, **kw)
+        c._log, c._mute, c._pending, c._pending_logged = [], False, None, False
+        c.set_trace_callback(lambda t, _c=c: on_sql(_c, t))
+        return c
+
+    def store_conn():
+        c = connect(check_same_thread=False)
         c.text_factory = bytes
         return c
 
-    def prepopulate(conn):
-        raw = sqlite3.Connection.cursor(conn)
-        have = set(r[0].decode() if isinstance(r[0], bytes) else r[0]
-                   for r in raw.execute("SELECT name FROM sqlite_master WHERE type='table'"))
-        for t in meta["tables"]:
-            if t["name"] in have:
-                cols = t["key"] + t["nonkey"]
-                raw.execute("INSERT INTO %s (%s) VALUES (%s)" % (t["name"], ", ".join(cols), ", ".join("?" * len(cols))),
-                            tuple([SENT] * len(cols)))
-        sqlite3.Connection.commit(conn)
+    def raw(conn, sql, params=()):
+        conn._mute = True
+        try:
+            return sqlite3.Connection.cursor(conn).execute(sql, params).fetchall()
+        finally:
+            conn._mute = False
 
-    pkg = "yowsup.axolotl.store.sqlite."
-    modname = {c: pkg + c.lower() for c in set(m["class"] for m in meta["methods"]) | {meta["init"]["class"]}}
-    for v in meta["facade"]["attrs"].values():
-        modname.setdefault(v, pkg + v.lower())
-    out = []
-    for cname in sorted(modname):
-        cls = getattr(importlib.import_module(modname[cname]), cname)
-        # the constructor: on a fresh database, and again on the same connection
-        conn = connect()
-        for variant in ("fresh", "again"):
-            del conn._log[:]
-            exc = None
-            try:
-                cls(conn)
-            except Exception as e:
-                exc = type(e).__name__
-            out.append({"kind": "init", "class": cname, "variant": variant, "trace": list(conn._log), "exc": exc})
-        conn.close()
-        for m in meta["methods"]:
-            if m["class"] != cname or not m["public"]:
+    def _s(x):
+        return x.decode() if isinstance(x, bytes) else x
+
+    def schema(conn):
+        tabs = []
+        for (name,) in raw(conn, "SELECT name FROM sqlite_master WHERE type='table' ORDER BY name"):
+            name = _s(name)
+            if name.startswith("sqlite_"):
                 continue
-            for variant in ("absent", "present"):
-                conn = connect()
-                obj = cls(conn)
-                if variant == "present":
-                    prepopulate(conn)
-                del conn._log[:]
-                args = [[S(SENT), S(SENT2)] if p == m["loop"] else S(SENT) for p in m["params"]]
+            cols = [{"name": _s(r[1]), "decl": _s(r[2]) or "", "pk": int(r[5])} for r in raw(conn, "PRAGMA table_info(%s)" % name)]
+            uniq = []
+            for r in raw(conn, "PRAGMA index_list(%s)" % name):
+                if int(r[2]):
+                    uniq.append([_s(x[2]) for x in raw(conn, "PRAGMA index_info(%s)" % _s(r[1]))])
+            tabs.append({"name": name, "cols": cols, "unique": uniq})
+        return tabs
+
+    def prepopulate(conn, variant):
+        if variant == "A":
+            return
+        for t in schema(conn):
+            keys = set(c for u in t["unique"] for c in u)
+            cols = [c["name"] for c in t["cols"] if not c["pk"]]
+            vals = [SENT if (c in keys or variant == "P") else ALT for c in cols]
+            raw(conn, "INSERT INTO %s (%s) VALUES (%s)" % (t["name"], ", ".join(cols), ", ".join("?" * len(cols))), vals)
+        conn._mute = True
+        try:
+            sqlite3.Connection.commit(conn)
+        finally:
+            conn._mute = False
+
+    def wipe(conn):
+        for t in schema(conn):
+            raw(conn, "DELETE FROM %s" % t["name"])
+        conn._mute = True
+        try:
+            sqlite3.Connection.commit(conn)
+        finally:
+            conn._mute = False
+
+    def call(f, args):
+        try:
+            f(*args)
+            return None
+        except Exception as e:
+            return [type(e).__name__, str(e)[:200]]
+
+    def in_pkg(obj):
+        return (getattr(obj, "__module__", "") or "").startswith(PKG)
+
+    def is_private(name):
+        return name.startswith("_") and not (name.startswith("__") and name.endswith("__"))
+
+    def describe_methods(cls):
+        """name -> {params, static, public, error}: methods defined in the package along the MRO"""
+        res = {}
+        for name in dir(cls):
+            if name == "__init__":
+                continue
+            owner = next((k for k in cls.__mro__ if name in vars(k)), None)
+            if owner is None or not in_pkg(owner):
+                continue
+            rawattr = vars(owner)[name]
+            static = isinstance(rawattr, staticmethod)
+            f = getattr(cls, name)
+            if not callable(f) or isinstance(rawattr, (property, type)):
+                continue
+            d = {"static": static, "public": not is_private(name), "params": None, "error": None,
+                 "special": name.startswith("__")}
+            try:
+                ps = list(inspect.signature(f).parameters.values())
+                if not static and not isinstance(rawattr, classmethod):
+                    ps = ps[1:]
+                if any(p.kind not in (p.POSITIONAL_ONLY, p.POSITIONAL_OR_KEYWORD) for p in ps):
+                    d["error"] = "signature with *args / **kwargs / keyword-only parameters"
+                d["params"] = [p.name for p in ps]
+            except Exception as e:
+                d["error"] = "signature: %r" % (e,)
+            res[name] = d
+        return res
+
+    def measure_all():
+        # ---------------- facade, connection, schema
+        fmod = importlib.import_module(PKG + ".liteaxolotlstore")
+        real = fmod.sqlite3 if hasattr(fmod, "sqlite3") else None
+        connects = []
+
+        class Shim(object):
+            def connect(self, path, *a, **kw):
+                c = connect(":memory:", **{k: v for k, v in kw.items()})
+                connects.append({"path": str(path), "args": len(a), "kw": sorted(kw), "conn": c})
+                return c
+
+            def __getattr__(self, name):
+                return getattr(sqlite3, name)
+        if real is None:
+            raise MeasureError("liteaxolotlstore does not use the module sqlite3")
+        fmod.sqlite3 = Shim()
+        dbpath = os.path.join(job["scratch"], "c13-measure-facade.db")
+        try:
+            store = fmod.LiteAxolotlStore(dbpath)
+        finally:
+            fmod.sqlite3 = real
+        if os.path.exists(dbpath):
+            raise MeasureError("the facade opened its database behind the back of its module's sqlite3.connect")
+        if len(connects) != 1:
+            raise MeasureError("the facade opened %d connections" % len(connects))
+        conn = connects[0]["conn"]
+        out["conn"] = {"connects": len(connects), "kw": connects[0]["kw"],
+                       "text_factory_bytes": conn.text_factory is bytes,
+                       "isolation_level": conn.isolation_level,
+                       "autocommit": getattr(conn, "autocommit", -1),
+                       "in_transaction_after_init": bool(conn.in_transaction)}
+        out["schema"] = schema(conn)
+        attrs, classes = {}, {}
+        for a, v in sorted(vars(store).items()):
+            if in_pkg(type(v)):
+                attrs[a] = type(v).__name__
+                classes[type(v).__name__] = type(v)
+                held = [k for k, x in vars(v).items() if x is conn]
+                if len(held) != 1:
+                    raise MeasureError("sub-store %s does not keep the facade's connection in exactly one attribute" % a)
+        out["facade"] = {"attrs": attrs, "class": type(store).__name__, "methods": {}}
+        # recorders on the sub-store instances
+        calls = []
+
+        def recorder(attr, name):
+            def rec(*a, **k):
+                calls.append([attr, name, [desc(x) for x in a], sorted(k)])
+            return rec
+        for a in attrs:
+            sub = getattr(store, a)
+            for n in dir(sub):
+                if not n.startswith("_") and callable(getattr(sub, n)):
+                    setattr(sub, n, recorder(a, n))
+        fcls = type(store)
+        for name, d in sorted(describe_methods(fcls).items()):
+            if not d["public"] or d["special"]:
+                continue
+            if d["error"]:
+                out["facade"]["methods"][name] = {"error": d["error"]}
+                continue
+            del calls[:]
+            del conn._log[:]
+            exc = call(getattr(store, name), [Sent(p) for p in d["params"]])
+            out["facade"]["methods"][name] = {"params": d["params"], "calls": list(calls), "exc": exc,
+                                              "events": list(conn._log), "error": None}
+        conn.close()
+        # ---------------- the store classes
+        out["classes"] = {}
+        for cname, cls in sorted(classes.items()):
+            info = {"module": cls.__module__, "methods": {}, "init": []}
+            out["classes"][cname] = info
+            # constructor: fresh / again / after all rows were removed / second fresh database
+            c = store_conn()
+            obj = None
+            for variant in ("fresh", "again", "wiped"):
+                if variant == "wiped":
+                    wipe(c)
+                del c._log[:]
                 exc = None
                 try:
-                    getattr(obj, m["name"])(*args)
-                except sqlite3.IntegrityError:
-                    exc = "IntegrityError"
+                    obj = cls(c)
                 except Exception as e:
-                    exc = type(e).__name__
-                out.append({"kind": "method", "class": cname, "name": m["name"], "variant": variant,
-                            "trace": list(conn._log), "exc": exc})
-                conn.close()
-    sys.stdout.write(json.dumps(out))
+                    exc = [type(e).__name__, str(e)[:200]]
+                info["init"].append({"variant": variant, "events": list(c._log), "exc": exc, "gen": readback(obj)
+                                     if variant != "again" else None})
+            c.close()
+            c = store_conn()
+            exc, obj = None, None
+            try:
+                obj = cls(c)
+            except Exception as e:
+                exc = [type(e).__name__, str(e)[:200]]
+            info["init"].append({"variant": "fresh2", "events": list(c._log), "exc": exc, "gen": readback(obj)})
+            c.close()
+            # methods
+            for mname, d in sorted(describe_methods(cls).items()):
+                m = {"params": d["params"], "static": d["static"], "public": d["public"], "special": d["special"],
+                     "error": d["error"], "loop": None, "runs": []}
+                info["methods"][mname] = m
+                if not d["public"] or d["special"] or d["error"]:
+                    continue
+
+                def one(variant, loopp, k):
+                    c = store_conn()
+                    try:
+                        o = cls(c)
+                        prepopulate(c, variant)
+                        del c._log[:]
+                        args = [[Sent(p, (), i) for i in range(k)] if p == loopp else Sent(p) for p in d["params"]]
+                        exc = call(getattr(o, mname), args)
+                        return {"variant": variant, "k": k if loopp else None, "events": list(c._log), "exc": exc}
+                    finally:
+                        c.close()
+                first = one("A", None, 0)
+                loopp = None
+                if first["exc"] and first["exc"][0] == "TypeError" and "Sent" in first["exc"][1]:
+                    for p in d["params"]:
+                        r = one("A", p, 1)
+                        if not (r["exc"] and r["exc"][0] == "TypeError" and "Sent" in r["exc"][1]):
+                            loopp = p
+                            break
+                    if loopp is None:
+                        m["error"] = "cannot be called with sentinel arguments: %s" % first["exc"][1]
+                        m["runs"].append(first)
+                        continue
+                m["loop"] = loopp
+                if loopp is None:
+                    m["runs"] = [first, one("P", None, 0), one("C", None, 0)]
+                else:
+                    m["runs"] = [one(v, loopp, k) for k in (0, 1, 3) for v in ("A", "P")]
+
+    def readback(obj):
+        """generated values of the initialising store, as the public API reports them"""
+        if obj is None:
+            return None
+        g = {}
+        try:
+            if hasattr(obj, "getLocalRegistrationId") and hasattr(obj, "getIdentityKeyPair"):
+                conn = [x for x in vars(obj).values() if isinstance(x, sqlite3.Connection)][0]
+                conn._mute = True
+                try:
+                    g["regid"] = obj.getLocalRegistrationId()
+                    kp = obj.getIdentityKeyPair()
+                finally:
+                    conn._mute = False
+                for chain in (("getPublicKey", "getPublicKey", "serialize"), ("getPublicKey", "serialize"),
+                              ("getPrivateKey", "serialize"), ("getPublicKey", "getPublicKey", "getPublicKey"),
+                              ("getPrivateKey", "getPrivateKey")):
+                    try:
+                        v = kp
+                        for x in chain:
+                            v = getattr(v, x)()
+                        if isinstance(v, (bytes, bytearray)):
+                            g[".".join(chain)] = bytes(v).hex()
+                    except Exception:
+                        pass
+        except Exception:
+            return None
+        return g or None
+
+    try:
+        measure_all()
+    except MeasureError as e:
+        out["fatal"] = str(e)
+    except Exception as e:
+        out["fatal"] = "%s: %s | %s" % (type(e).__name__, e, traceback.format_exc()[-600:].replace("\n", " / "))
+    sys.stdout.write("\n" + json.dumps(out))
 
 
 if __name__ == "__main__":
